@@ -118,3 +118,34 @@ func (s *QUICSpec) TransportParameterIDs() []uint64 {
 func (s *QUICSpec) UpdateConfig(config *Config) {
 	s.InitialPacketSpec.UpdateConfig(config)
 }
+
+// dialCopy returns the spec a single dial works on, so that one QUICSpec value can serve
+// any number of dials, one after the other or at the same time.
+//
+// Two of the ClientHelloSpec's extensions are written to while a connection is set up:
+// uTLS stores the key shares it generates in the KeyShareExtension (and only generates
+// them while they are empty), and the QUICTransportParametersExtension is suppressed,
+// shuffled, given the connection's own source connection ID and then cached by uTLS in
+// its serialized form. Left in the shared spec, the second dial found the first dial's
+// public keys without their private halves (tls: internal error) and put the first
+// dial's transport parameters — source connection ID and shuffle included — on the wire.
+// The copy shares everything else with s, in particular the GREASE transport parameter
+// values that TransportParameterIDs pins. [UQUIC]
+func (s *QUICSpec) dialCopy() *QUICSpec {
+	c := *s
+	if s.ClientHelloSpec == nil {
+		return &c
+	}
+	chs := *s.ClientHelloSpec
+	chs.Extensions = slices.Clone(s.ClientHelloSpec.Extensions)
+	for i, ext := range chs.Extensions {
+		switch ext := ext.(type) {
+		case *tls.KeyShareExtension:
+			chs.Extensions[i] = &tls.KeyShareExtension{KeyShares: slices.Clone(ext.KeyShares)}
+		case *tls.QUICTransportParametersExtension:
+			chs.Extensions[i] = &tls.QUICTransportParametersExtension{TransportParameters: slices.Clone(ext.TransportParameters)}
+		}
+	}
+	c.ClientHelloSpec = &chs
+	return &c
+}
